@@ -355,6 +355,7 @@ type State struct {
 	names   map[string]string       // named sub-terms (heap reads)
 	polls   []poll                  // stop polls passed since the head of the innermost loop (C16)
 	loopBinds map[string]Val        // $i<ord> / $range<ord> of the enclosing loops
+	nameLog []string                // (term, constant) pairs in the order they were named
 }
 
 // poll is a point where the goroutine looks at the stop signals: a select with stop cases
@@ -398,6 +399,7 @@ func (s *State) fork() *State {
 	n.defers = s.defers[:len(s.defers):len(s.defers)]
 	n.trail = s.trail[:len(s.trail):len(s.trail)]
 	n.polls = s.polls[:len(s.polls):len(s.polls)]
+	n.nameLog = s.nameLog[:len(s.nameLog):len(s.nameLog)]
 	if s.writes != nil {
 		n.writes = make(map[string][]wr, len(s.writes))
 		for k, v := range s.writes {
